@@ -377,7 +377,7 @@ def gen_spec(rng, idx, thorough=False, force=None):
         for k in range(2):
             hid += rng.randint(1, 50)
             parts.append(dict(id=hid, x=base[0] + k * 2 * sft, y=base[1], z=base[2], vx=(-1.0 if k else 1.0) * rng.choice([0.0, 0.5, 1.0]),
-                              vy=0.0, vz=0.0, m=1.0, r=sft))
+                              vy=0.0, vz=0.0, m=1.0, r=sft, touch=1))
     # non-square root-box layout: the base box becomes one root cell of a larger box (shift BEFORE wrapping, so that
     # clusters generated at the faces of the base box straddle root-box faces)
     nroot = [1, 1, 1]
@@ -547,6 +547,9 @@ def gen_spec(rng, idx, thorough=False, force=None):
         # the step (positions are moved back by v*dt), so particles arrive from other cells of the tree
         spec["integrator"] = "leapfrog"
         spec["use_step"] = 1
+        for p in parts:
+            if p.get("touch"):
+                p["vx"] = 0.0       # dyadic coordinates and velocities would make the pair coincide exactly in mid-step (the tree refuses that)
         for p in parts:
             p["x"] -= p["vx"] * spec["dt"]; p["y"] -= p["vy"] * spec["dt"]; p["z"] -= p["vz"] * spec["dt"]
             if boundary in ("periodic", "shear"):
